@@ -490,6 +490,9 @@ def syntactic_audit(crate):
 
 
 def run(run, group):
+    # `group@Cxx`: only the harnesses of the group that carry property Cxx, closed under `needs` and under the
+    # proof_for_contract harnesses of the contracts they assume, plus the group's canary and cover harnesses
+    group, _, pfilter = group.partition('@')
     kfiles = load_group(group)
     tier = getattr(run, 'tier', 'quick')
     prop = getattr(run, 'prop', None)
@@ -498,6 +501,21 @@ def run(run, group):
     hs = [h for kf in kfiles for h in kf.harnesses if h['tier'] != 'off' and (tier == 'thorough' or h['tier'] != 'thorough')]
     if only:
         hs = [h for h in hs if h['name'] in only]
+    if pfilter:
+        byname = {h['name']: h for h in hs}
+        provers = {}
+        for h in hs:
+            if h['proves']: provers.setdefault(h['proves'].split('::')[-1], []).append(h['name'])
+        keep = set(h['name'] for h in hs if pfilter in h['props'] or h['kind'] in ('canary', 'cover'))
+        work = list(keep)
+        while work:
+            h = byname.get(work.pop())
+            if not h: continue
+            dep = list(h['needs']) + [n for a in h['assumes'] for n in provers.get(a.split('::')[-1], [])]
+            for d in dep:
+                if d in byname and d not in keep:
+                    keep.add(d); work.append(d)
+        hs = [h for h in hs if h['name'] in keep]
     names = [h['name'] for h in hs]
     if len(set(names)) != len(names):
         raise Undecided(f'kani:{group}: duplicate harness names')
